@@ -1,6 +1,7 @@
 package sym
 
 import (
+	"go/token"
 	"go/types"
 )
 
@@ -90,6 +91,24 @@ func init() {
 			a, ka := lift(tt, args[1])
 			b, _ := lift(tt, args[2])
 			return norm(tt.Ite(c.T, a, b), ka)
+		},
+		// vCatchExit(f): runs f; reports an os.Exit reached inside it
+		"vCatchExit": func(fr *frame, args []value) (res value) {
+			defer func() {
+				if r := recover(); r != nil {
+					if e, ok := r.(exitPanic); ok {
+						res = tuple{int(e), true}
+						return
+					}
+					panic(r)
+				}
+			}()
+			call(fr.i, fr, token.NoPos, args[0], nil)
+			return tuple{0, false}
+		},
+		"vPermuteMaps": func(fr *frame, args []value) value {
+			fr.i.ps().permuteMaps = args[0].(bool)
+			return nil
 		},
 		"vKnown": func(fr *frame, args []value) value {
 			fr.i.ps().known = args[0].(string)
